@@ -1,4 +1,6 @@
 """C06 — multi-objective step rule and return-to-base schedule (suppapitnarm explorer)."""
+import json, os, re
+import check as ck
 import coqgen as g
 
 ITER_BUDGET = 900       # iterations of full runs per generated .v shard
@@ -71,9 +73,78 @@ def scase(c):
 
 PRELUDE = (g.HEADER +
            "From Coq Require Import Floats.\n"
-           "From Crem Require Import Base.Res Base.Fl Dominance SuppRtbFloat Suppapitnarm SuppapitnarmCorr.\n"
+           "From Crem Require Import Base.Res Base.Fl Dominance NdArchive SuppRtbFloat Suppapitnarm SuppapitnarmCorr.\n"
            "Open Scope Q_scope.\n")
 
+
+
+# ---------- source-level tie: harness/astfacts06 -> gen/Facts06.v -> obligations by computation ----------
+
+OBLIGATIONS = [
+    ("storage_result_constants_as_modelled", "strings_eqb Facts06.storage_results Suppapitnarm.storage_result_names"),
+    ("verdict_codes_are_iota", "nats_eqb (map sres_code all_verdicts) (seq 0 6)"),
+    ("switch_is_on_archiveStorageResult", 'String.eqb Facts06.switch_tag "ke.archiveStorageResult"'),
+    ("desirable_cases_as_modelled", "nats_same_set Facts06.desirable_cases Suppapitnarm.desirable_cases"),
+    ("undesirable_cases_as_modelled", "nats_same_set Facts06.undesirable_cases Suppapitnarm.undesirable_cases"),
+    ("switch_has_no_default", "negb Facts06.switch_has_default"),
+    ("switch_has_no_other_clause", "match Facts06.switch_other_clauses with [] => true | _ => false end "
+                                   "&& Nat.eqb Facts06.switch_statements_in_function 1"),
+    ("unhandled_results_are_never_returned_by_attempt", "nats_same_set Suppapitnarm.sticky_cases [4; 5]%nat"),
+    ("try_random_change_order_as_modelled", "strings_eqb Facts06.try_random_change_order Suppapitnarm.try_random_change_order"),
+    ("parameter_specifications_as_modelled",
+     "forallb (fun e => existsb (spec_eqb e) Facts06.param_specs) Suppapitnarm.param_specs "
+     "&& Nat.eqb (List.length Facts06.param_specs) (List.length Suppapitnarm.param_specs)"),
+    ("schedule_getter_sites_present", "forallb (fun e => existsb (triple_eqb e) Facts06.getter_sites) getter_sites_needed"),
+    ("source_defaults_satisfy_params_ok",
+     'match lookup "InitialReturnToBaseStep", lookup "MinimumReturnToBaseRate", lookup "ReturnToBaseAdjustmentFactor" with '
+     "| Some (DInt i), Some (DInt m), Some (DFloat f) => params_ok (mk_params i m f 1%float Product false) | _, _, _ => false end"),
+]
+
+OBL_PRELUDE = (g.HEADER +
+               "From Coq Require Import Floats.\n"
+               "From Crem Require Import Base.Res NdArchive SuppRtbFloat Suppapitnarm.\n"
+               "From CremGen Require Facts06.\n"
+               "Open Scope string_scope.\n"
+               "Fixpoint nats_eqb (a b : list nat) : bool := match a, b with [], [] => true "
+               "| x :: a', y :: b' => Nat.eqb x y && nats_eqb a' b' | _, _ => false end.\n"
+               "Definition lookup (k : string) : option pdefault := "
+               "option_map snd (find (fun e => String.eqb (fst (fst e)) k) Facts06.param_specs).\n")
+
+
+def translate(ctx):
+    """build and run the stand-alone go/ast translator on REPO's current source -> gen/Facts06.v"""
+    tdir = os.path.join(ck.VERIF, "harness", "astfacts06")
+    exe = os.path.join(ck.BUILD, "astfacts06." + ctx.pid)
+    p = ck.sh(["go", "build", "-o", exe, "."], cwd=tdir, env=ck.GOENV, timeout=600)
+    if p.returncode != 0:
+        raise ck.Abort("astfacts06 does not build:\n" + p.stdout[-2000:] + p.stderr[-4000:])
+    out = os.path.join(ck.GEN, "Facts06.v")
+    p = ck.sh([exe, ck.REPO, out], env=ck.GOENV, timeout=300)
+    if p.returncode != 0:
+        raise ck.Abort("astfacts06: file / function / constant block not found (hard error, not a verdict):\n" + p.stderr[-4000:])
+    return json.loads(p.stdout.strip().splitlines()[-1])
+
+
+def source_obligations(ctx, facts):
+    ok, so, se = ctx.coq_cases("Facts06", open(os.path.join(ck.GEN, "Facts06.v")).read())
+    if not ok:
+        raise ck.Abort("generated gen/Facts06.v does not compile:\n" + (se or so)[-3000:])
+    body = OBL_PRELUDE + "Definition O := Eval vm_compute in [\n  " + \
+        ";\n  ".join('("%s", %s)' % (n, e) for n, e in OBLIGATIONS) + "\n].\nPrint O.\n"
+    ok, so, se = ctx.coq_cases("obl_C06", body)
+    if not ok:
+        raise ck.Abort("gen/obl_C06.v does not compile:\n" + (se or so)[-3000:])
+    vals = dict(re.findall(r'\(\s*"([A-Za-z_0-9]+)",\s*(true|false)\)', so))
+    failed = []
+    for n, _ in OBLIGATIONS:
+        v = vals.get(n)
+        ctx.oblige("facts:" + n, v == "true", "" if v == "true" else "evaluates to %s on gen/Facts06.v" % v)
+        if v != "true":
+            failed.append(n)
+    if failed:
+        ctx.broken.append("gen/obl_C06.v: the model's assumptions about the source are false for the facts translated from the "
+                          "current source: %s (extracted: %s)" % (failed, json.dumps(facts)[:1800]))
+    return failed
 
 def shards(cases):
     """group cases so that every shard stays small (full runs by iteration count, schedule runs by count)"""
@@ -91,6 +162,7 @@ def shards(cases):
 
 def run(ctx):
     ctx.build_harness()
+    facts = translate(ctx)
     lines = ctx.run_harness("C06", [ctx.tier])
     cases = [l for l in lines if l.get("kind") == "case"]
     for l in lines:
@@ -103,6 +175,7 @@ def run(ctx):
     jobs = []
     with ThreadPoolExecutor(max_workers=4) as ex:
         jobs.append(ex.submit(ctx.check_theorems, "Properties/C06.v"))
+        fjob = ex.submit(source_obligations, ctx, facts)
         shard_list = list(shards(cases))
         for si, shard in enumerate(shard_list):
             items = [rcase(c) if c["t"] == "r" else scase(c) for c in shard]
@@ -110,6 +183,7 @@ def run(ctx):
             body += "Definition M := Eval vm_compute in mismatches cases.\nPrint M.\n"
             jobs.append(ex.submit(ctx.correspondence, "cases_C06_%d" % si, body, None, len(shard)))
     results = [j.result() for j in jobs]
+    fjob.result()
     nshards = len(shard_list)
     for shard, idx in zip(shard_list, results[1:]):
         if idx:
@@ -118,7 +192,9 @@ def run(ctx):
                 brief = {k: c[k] for k in ("t", "init", "min", "factor", "ck", "class", "until0", "n") if k in c}
                 ctx.notes.append({"mismatch": brief})
     # obligations in a deterministic order whatever the completion order was
-    ctx.obligations.sort(key=lambda o: (not o[0].startswith("no_forbidden"), not o[0].startswith("theorem:"), o[0]))
+    ctx.obligations.sort(key=lambda o: (not o[0].startswith("no_forbidden"), not o[0].startswith("theorem:"),
+                                        not o[0].startswith("facts:"), o[0]))
+    ctx.notes.append({"source_facts(harness/astfacts06)": facts})
     full = [c for c in cases if c["t"] == "r"]
     sched = [c for c in cases if c["t"] == "s"]
     iters = sum(len(c["obs"]) for c in full)
